@@ -32,6 +32,7 @@ FORMS = ['aggregate-rows', 'aggregate-value', 'aggregate-values', 'aggregate-len
 REQUIRED = (['form:' + f for f in FORMS] + ['key-none-group', 'equal-but-different-type-keys-in-one-group', 'single-row-group-first', 'single-row-group-last',
             'compound-key', 'chunked', 'presorted', 'header-only', 'rows-handed-to-recorders', 'min/max-tie'])
 KPOOL = [None, 1, 1.0, True, 2, 'a', 'b', b'a', (1, 2), gen.D(2020, 1, 1)]
+LISTKEY = [1, 2]      # a list-valued key cell is equivalent to the tuple (1, 2) under the ordering (C04): one group
 VPOOL = [0, 1, 2, 3, 5, -1, 2.5]
 
 
@@ -49,6 +50,8 @@ def cases(ctx):
     for i in range(ctx.pick(60000, 800000)):
         f = FORMS[i % len(FORMS)]
         kp = rng.sample(KPOOL, 4) + ([1, 1.0, True] if rng.random() < 0.3 else [])
+        if f not in ('valuecounts', 'valuecounter', 'rowgroupby-callable', 'mergeduplicates', 'merge', 'groupcountdistinctvalues') and rng.random() < 0.25:
+            kp = kp + [LISTKEY, (1, 2)]
         jp = ['x', 'y', None]
         n = rng.choice([0, 1, 2, 3, 4, 5, 6, 7, 8])
         t = [H] + [[rng.choice(kp), rng.choice(jp), rng.choice(VPOOL), 'r%d' % r] for r in range(n)]
